@@ -4,6 +4,7 @@ import IgrisModel.C06.LemConv
 import IgrisModel.C06.LemWrap
 import IgrisModel.C06.LemGrammar
 import IgrisModel.C06.LemRange
+import IgrisModel.C06.LemAlt
 namespace Igris.C06
 open Iso
 
